@@ -567,7 +567,24 @@ pub fn run(rep: &Report) -> i32 {
       }
     }
     let s3 = structures.len() - s3_start;
-    rep.set("bounds", json!({"S3_sibling_block_structures": s3, "S2_statement_budget": budget, "S2_structures": s2, "S2_deep_structures_without_calls": s2deep, "S2_deep_stride": if quick { 4 } else { 1 }, "S1_patterns": n_pats, "S1_contexts": 8, "nesting": 3, "names": NAMES}));
+    // S4: long sequences - n statements in one scope (every let stays live in the environment, shadowed or not)
+    let s4_start = structures.len();
+    let lens: &[usize] = if quick { &[40, 64, 65, 66, 70] } else { &[40, 63, 64, 65, 66, 70, 100, 127, 128, 129, 130] };
+    for &n in lens {
+        let alt: Vec<S> = (0..n).map(|i| if i % 2 == 0 { S::Let(0, Rhs::Fresh) } else { S::Let(1, Rhs::Copy(0)) }).collect();
+        let same: Vec<S> = (0..n).map(|i| if i == 0 { S::Let(1, Rhs::Fresh) } else { S::Let(0, Rhs::Fresh) }).collect();
+        let pairs: Vec<S> = (0..n / 2).map(|i| if i % 2 == 0 { S::LetPair(0, 1, Rhs::Fresh, Rhs::Fresh) } else { S::LetPair(1, 0, Rhs::Copy(0), Rhs::Copy(1)) }).collect();
+        let mut tail_block = same.clone();
+        tail_block.push(S::Block(vec![S::Let(1, Rhs::Copy(0)), S::Let(0, Rhs::Copy(1))]));
+        tail_block.push(S::Match(0, vec![S::Let(1, Rhs::Copy(0))], 1, vec![]));
+        let mut call = same.clone();
+        call.push(S::LetCall(0, 4, Rhs::Copy(1), Rhs::Copy(0)));
+        for c in [alt, same, pairs, tail_block, call] {
+            structures.push(("S4-long".to_string(), c));
+        }
+    }
+    let s4 = structures.len() - s4_start;
+    rep.set("bounds", json!({"S4_long_sequences": s4, "S4_lengths": lens, "S3_sibling_block_structures": s3, "S2_statement_budget": budget, "S2_structures": s2, "S2_deep_structures_without_calls": s2deep, "S2_deep_stride": if quick { 4 } else { 1 }, "S1_patterns": n_pats, "S1_contexts": 8, "nesting": 3, "names": NAMES}));
     rep.transition(structures.len() as u64);
     let seen = std::sync::Mutex::new(std::collections::HashSet::new());
     par_for(&structures, rep, 32, |i, (family, ss)| {
